@@ -4,6 +4,7 @@ import (
 	"go/ast"
 	"go/token"
 	"go/types"
+	"os"
 	"reflect"
 	"sort"
 )
@@ -141,7 +142,7 @@ func (in *inliner) host(info *types.Info, pkg *types.Package, host *ast.FuncDecl
 			return nil, nil
 		}
 		fd := in.decls[o]
-		if fd == nil || usedHere[o] {
+		if fd == nil || (usedHere[o] && os.Getenv("YAE_INL_ONCE") != "") {
 			return nil, nil
 		}
 		return fd, o
@@ -214,8 +215,9 @@ func (in *inliner) host(info *types.Info, pkg *types.Package, host *ast.FuncDecl
 }
 
 // bindings returns the substitution for pure arguments and binding statements for the others.
-func (in *inliner) bindings(info *types.Info, call *ast.CallExpr, fd *ast.FuncDecl) (map[types.Object]ast.Expr, []ast.Stmt, bool) {
+func (in *inliner) bindings(info *types.Info, call *ast.CallExpr, fd *ast.FuncDecl) (map[types.Object]ast.Expr, []ast.Stmt, map[types.Object]types.Object, bool) {
 	subst := map[types.Object]ast.Expr{}
+	fresh := map[types.Object]types.Object{}
 	var binds []ast.Stmt
 	written := map[types.Object]bool{} // parameters the callee assigns to or takes the address of: never substituted
 	ast.Inspect(fd.Body, func(x ast.Node) bool {
@@ -253,13 +255,16 @@ func (in *inliner) bindings(info *types.Info, call *ast.CallExpr, fd *ast.FuncDe
 			return
 		}
 		id := &ast.Ident{NamePos: call.Pos(), Name: name.Name}
-		info.Defs[id] = o
+		// every copy gets variables of its own: two inlined copies of one helper must not share locals
+		no := types.Object(types.NewVar(o.Pos(), o.Pkg(), o.Name(), o.Type()))
+		fresh[o] = no
+		info.Defs[id] = no
 		binds = append(binds, &ast.AssignStmt{Lhs: []ast.Expr{id}, TokPos: call.Pos(), Tok: token.DEFINE, Rhs: []ast.Expr{arg}})
 	}
 	if fd.Recv != nil {
 		sel, ok := unparen(call.Fun).(*ast.SelectorExpr)
 		if !ok || len(fd.Recv.List) != 1 {
-			return nil, nil, false
+			return nil, nil, nil, false
 		}
 		if len(fd.Recv.List[0].Names) == 1 {
 			bind(fd.Recv.List[0].Names[0], sel.X)
@@ -273,16 +278,16 @@ func (in *inliner) bindings(info *types.Info, call *ast.CallExpr, fd *ast.FuncDe
 		}
 		for _, n := range fl.Names {
 			if k >= len(call.Args) {
-				return nil, nil, false
+				return nil, nil, nil, false
 			}
 			bind(n, call.Args[k])
 			k++
 		}
 	}
 	if k != len(call.Args) {
-		return nil, nil, false
+		return nil, nil, nil, false
 	}
-	return subst, binds, true
+	return subst, binds, fresh, true
 }
 
 func (in *inliner) pure(info *types.Info, e ast.Expr) bool {
@@ -305,7 +310,7 @@ func (in *inliner) pure(info *types.Info, e ast.Expr) bool {
 
 // expandStmt handles shapes R and S.
 func (in *inliner) expandStmt(info *types.Info, call *ast.CallExpr, fd *ast.FuncDecl, shape string) []ast.Stmt {
-	subst, binds, ok := in.bindings(info, call, fd)
+	subst, binds, fresh, ok := in.bindings(info, call, fd)
 	if !ok {
 		return nil
 	}
@@ -322,7 +327,7 @@ func (in *inliner) expandStmt(info *types.Info, call *ast.CallExpr, fd *ast.Func
 			body = body[:len(body)-1]
 		}
 	}
-	cl := &cloner{info: info, subst: subst}
+	cl := &cloner{info: info, subst: subst, fresh: fresh, lo: fd.Pos(), hi: fd.End()}
 	out := append([]ast.Stmt{}, binds...)
 	for _, s := range body {
 		out = append(out, cl.node(reflect.ValueOf(s)).Interface().(ast.Stmt))
@@ -337,11 +342,11 @@ func (in *inliner) expandAssign(info *types.Info, call *ast.CallExpr, fd *ast.Fu
 	if len(rets) != 1 || len(body) == 0 || body[len(body)-1] != ast.Stmt(rets[0]) || len(rets[0].Results) == 0 {
 		return nil, nil
 	}
-	subst, binds, ok := in.bindings(info, call, fd)
+	subst, binds, fresh, ok := in.bindings(info, call, fd)
 	if !ok {
 		return nil, nil
 	}
-	cl := &cloner{info: info, subst: subst}
+	cl := &cloner{info: info, subst: subst, fresh: fresh, lo: fd.Pos(), hi: fd.End()}
 	out := append([]ast.Stmt{}, binds...)
 	for _, s := range body[:len(body)-1] {
 		out = append(out, cl.node(reflect.ValueOf(s)).Interface().(ast.Stmt))
@@ -375,8 +380,8 @@ func (in *inliner) exprCalls(info *types.Info, pkg *types.Package, host *ast.Fun
 					if o := staticCallee(info, call); o != nil && o != hostObj && in.pkgOf[o] == pkg {
 						if fd := in.decls[o]; fd != nil && len(fd.Body.List) == 1 {
 							if r, ok := fd.Body.List[0].(*ast.ReturnStmt); ok && len(r.Results) == 1 {
-								if subst, binds, ok := in.bindings(info, call, fd); ok && len(binds) == 0 {
-									cl := &cloner{info: info, subst: subst}
+								if subst, binds, fresh, ok := in.bindings(info, call, fd); ok && len(binds) == 0 {
+									cl := &cloner{info: info, subst: subst, fresh: fresh, lo: fd.Pos(), hi: fd.End()}
 									ne := cl.node(reflect.ValueOf(r.Results[0])).Interface().(ast.Expr)
 									pe := &ast.ParenExpr{Lparen: call.Pos(), X: ne, Rparen: call.End() - 1}
 									if tv, ok := info.Types[call]; ok {
@@ -409,8 +414,27 @@ func (in *inliner) exprCalls(info *types.Info, pkg *types.Package, host *ast.Fun
 
 // cloner deep-copies syntax, substituting parameter identifiers and copying the types.Info entries of every node.
 type cloner struct {
-	info  *types.Info
-	subst map[types.Object]ast.Expr
+	info   *types.Info
+	subst  map[types.Object]ast.Expr
+	fresh  map[types.Object]types.Object // callee-local variable -> this copy's variable
+	lo, hi token.Pos                     // the callee declaration
+}
+
+// renew maps a variable declared inside the callee to a variable of this copy (created on first sight).
+func (cl *cloner) renew(o types.Object) types.Object {
+	if o == nil || cl.fresh == nil {
+		return o
+	}
+	if n, ok := cl.fresh[o]; ok {
+		return n
+	}
+	v, ok := o.(*types.Var)
+	if !ok || v.IsField() || o.Pos() < cl.lo || o.Pos() > cl.hi {
+		return o
+	}
+	n := types.Object(types.NewVar(o.Pos(), o.Pkg(), o.Name(), o.Type()))
+	cl.fresh[o] = n
+	return n
 }
 
 func (cl *cloner) node(v reflect.Value) reflect.Value {
@@ -438,10 +462,10 @@ func (cl *cloner) node(v reflect.Value) reflect.Value {
 			}
 			id := &ast.Ident{NamePos: n.NamePos, Name: n.Name}
 			if o := cl.info.Uses[n]; o != nil {
-				cl.info.Uses[id] = o
+				cl.info.Uses[id] = cl.renew(o)
 			}
 			if o := cl.info.Defs[n]; o != nil {
-				cl.info.Defs[id] = o
+				cl.info.Defs[id] = cl.renew(o)
 			}
 			if tv, ok := cl.info.Types[n]; ok {
 				cl.info.Types[id] = tv
@@ -464,7 +488,7 @@ func (cl *cloner) node(v reflect.Value) reflect.Value {
 		}
 		if on, ok := v.Interface().(ast.Node); ok {
 			if o, ok := cl.info.Implicits[on]; ok {
-				cl.info.Implicits[nv.Interface().(ast.Node)] = o
+				cl.info.Implicits[nv.Interface().(ast.Node)] = cl.renew(o)
 			}
 		}
 		return nv
